@@ -241,9 +241,9 @@ fn untrusted_outcome<F: Fl>(bytes: Vec<u8>, fmt: Fmt, pad: usize) -> Value {
                 o => json!({"rt": "fail", "res": o.failure()}),
             }
         },
-        5000,
+        30000,
     );
-    r.unwrap_or_else(|| json!({"rt": "fail", "res": "VERIF-HANG: deserialisation did not return within 5 s"}))
+    r.unwrap_or_else(|| json!({"rt": "fail", "res": "VERIF-HANG: deserialisation did not return within 30 s"}))
 }
 
 pub fn replay_untrusted(opts: &HashMap<String, String>) -> Value {
